@@ -19,7 +19,7 @@ import (
 func TestVerifC16(t *testing.T) {
 	vfMain(t, vfCheck{
 		ID: "C16", Level: "exploration",
-		Rule: "os-backed server: real directories of each size in the tier's size list (quick: around the 128-entry batch edges up to 300; thorough: every size 0..300) with awkward names; request server: MaxFilelist in {1,2,3,7,(100)} x every size 0..2*batch+3 x lister behaviours {EOF with the last entries, EOF on the following call, short batches with nil error, listers that emit . and ..} x name sets. Oracle: multiset equality of (name,size,mode,mtime) against the directory / the lister's entries, READDIR round trips bounded, no stuck state. A class is (server, batch, size, behaviour).",
+		Rule:        "os-backed server: real directories of each size in the tier's size list (quick: around the 128-entry batch edges up to 300; thorough: every size 0..300) with awkward names; request server: MaxFilelist in {1,2,3,7,(100)} x every size 0..2*batch+3 x lister behaviours {EOF with the last entries, EOF on the following call, short batches with nil error, listers that emit . and ..} x name sets. Oracle: multiset equality of (name,size,mode,mtime) against the directory / the lister's entries, READDIR round trips bounded, no stuck state. A class is (server, batch, size, behaviour).",
 		Assumptions: []string{"entry names are non-empty and contain no '/' (the client applies path.Base)", "listers make progress (a lister returning (0,nil) forever is outside the ListerAt contract)", "MaxFilelist is a package-level variable, changed only between sessions"},
 		Units: func(tier vfTier, seed uint64) int {
 			if tier == vfThorough {
